@@ -98,7 +98,7 @@ class TU:
             for d in self.docs:
                 for c in d.get('inner', []) if d.get('kind') == 'TranslationUnitDecl' else [d]:
                     k = c.get('kind')
-                    if (k == 'NamespaceDecl' and c.get('name') in ('WorldBuilder', 'wrapper_cpp')) or k in ('LinkageSpecDecl', 'FunctionDecl'):
+                    if (k == 'NamespaceDecl' and c.get('name') in ('WorldBuilder', 'wrapper_cpp')) or k in ('LinkageSpecDecl', 'FunctionDecl', 'CXXRecordDecl', 'FunctionTemplateDecl', 'VarDecl', 'EnumDecl'):
                         keep.append(c)
             self.docs = keep
         del r
@@ -180,7 +180,7 @@ class TU:
             p = self.parent.get(p.get('id'))
         return p
 
-    def find_function(self, qual, sig=None, want_body=True):
+    def find_function(self, qual, sig=None, want_body=True, first_of_many=False):
         c = []
         for f in self.funcs:
             if self.qual(f) == qual and (sig is None or sig in f['type']['qualType']):
@@ -190,7 +190,7 @@ class TU:
         if len(c) > 1:
             # identical instantiations may be listed more than once; require equal signatures
             sigs = set(x['type']['qualType'] for x in c)
-            if len(sigs) > 1:
+            if len(sigs) > 1 and not first_of_many:
                 raise ExtractionBreak('ambiguous function %s sig=%s: %s' % (qual, sig, sorted(sigs)))
         return c[0]
 
@@ -410,6 +410,15 @@ class Translator:
         if re.match(r'^std::mersenne_twister_engine<', t) or t == 'std::mt19937':
             self.shim_used.add('mt19937')
             return CType('struct wb_mt19937', 'opaque')
+        m = re.match(r'^(?:typename )?__gnu_cxx::__enable_if<.*,\s*([\w ]+)>::__type$', t)
+        if m:
+            return self._ctype_noref(m.group(1), tu, node)
+        if t.startswith('(lambda at '):
+            self.shim_used.add('thread')
+            return CType('struct wb_lambda', 'opaque')
+        if t == 'std::thread':
+            self.shim_used.add('thread')
+            return CType('struct wb_thread', 'thread')
         if re.match(r'^std::uniform_real_distribution<', t):
             self.shim_used.add('mt19937')
             return CType('struct wb_uniform_real', 'opaque')
@@ -997,6 +1006,12 @@ class FunctionBody:
         t = self.qt(d)
         if self.is_stream_type(t):
             return []
+        init0 = [c for c in d.get('inner', []) if c.get('kind') and not c['kind'].endswith('Comment')]
+        if self.qt(d).startswith('(lambda at '):
+            self.lambdas = getattr(self, 'lambdas', {})
+            self.lambdas[d['id']] = d['name']
+            self.tr.dropped.append('lambda %s in %s is not translated: launching it is modelled by the ghost event WB_LAUNCH(first, last)' % (d['name'], self.info['cname']))
+            return []
         ct = self.tr.ctype(t, self.tu, d)
         name = d['name']
         inner = [c for c in d.get('inner', []) if c.get('kind') and not c['kind'].endswith('Comment')]
@@ -1110,7 +1125,7 @@ class FunctionBody:
     def strip(self, n):
         while n.get('kind') in ('ExprWithCleanups', 'CXXBindTemporaryExpr', 'ParenExpr', 'ConstantExpr',
                                 'SubstNonTypeTemplateParmExpr') or \
-                (n.get('kind') == 'ImplicitCastExpr' and n.get('castKind') in ('NoOp', 'FunctionToPointerDecay')):
+                (n.get('kind') == 'ImplicitCastExpr' and n.get('castKind') in ('NoOp', 'FunctionToPointerDecay', 'BuiltinFnToFnPtr')):
             if n.get('kind') == 'ConstantExpr' and not n.get('inner'):
                 break
             n = n['inner'][-1] if n.get('kind') == 'SubstNonTypeTemplateParmExpr' else n['inner'][0]
@@ -1507,6 +1522,17 @@ class FunctionBody:
             return self.expr(args[0])
         if ct.kind == 'ptr' and len(args) == 1:
             return self.expr(args[0])        # iterator conversions: iterators are plain pointers
+        if ct.kind == 'thread':
+            if not args:
+                return 'wb_thread_none()'
+            a0 = self.strip(args[0])
+            while a0.get('kind') in ('ImplicitCastExpr', 'MaterializeTemporaryExpr', 'CXXConstructExpr') and a0.get('inner'):
+                a0 = self.strip(a0['inner'][0])
+            if len(args) == 1 and self.ct(args[0]).kind == 'thread':
+                return self.expr(args[0])
+            if len(args) == 3 and a0.get('kind') == 'DeclRefExpr' and a0['referencedDecl']['id'] in getattr(self, 'lambdas', {}):
+                return 'wb_thread_launch(%s, %s)' % (self.expr(args[1]), self.expr(args[2]))
+            brk('std::thread construction form', n)
         if ct.kind == 'vector':
             real = [a for a in args if a.get('kind') != 'CXXDefaultArgExpr']
             if len(real) == 0:
@@ -1644,6 +1670,7 @@ class FunctionBody:
         if len(args) != len(params) or any(a.get('kind') == 'CXXDefaultArgExpr' for a in args):
             return None
         sub = FunctionBody(self.tr, info)
+        sub.zero_ret = self.zero_ret          # hoisted "if (wb_thrown) return" statements land in the caller
         sub.pre = self.pre
         sub.no_hoist = self.no_hoist
         sub.calls = self.calls
@@ -1728,7 +1755,7 @@ class FunctionBody:
         rd, mem = self.callee_decl(n)
         args = n['inner'][1:]
         decl = self.tu.by_id.get(rd['id'])
-        if decl is not None and decl.get('kind') in FUNC_KINDS:
+        if decl is not None and decl.get('kind') in FUNC_KINDS and not rd['name'].startswith('__builtin_'):
             cn = self.tr.request(self.tu, decl)
             self.calls.add(cn)
             return self.call_user(cn, None, args, decl, n)
@@ -1736,6 +1763,8 @@ class FunctionBody:
 
     def std_call(self, name, args, n):
         a = [x for x in args if x.get('kind') != 'CXXDefaultArgExpr']
+        if name.startswith('__builtin_'):
+            name = name[len('__builtin_'):]
         if name in LIBM1 and len(a) == 1:
             self.tr.shim_used.add('libm:' + name)
             return 'wb_%s(%s)' % (name, self.expr(a[0]))
@@ -1856,6 +1885,11 @@ class FunctionBody:
                 return '(&%s.e[%d])' % (o, ot.n)
             if name == 'at' and len(a) == 1:
                 return '%s.e[%s]' % (o, self.expr(a[0]))
+        if ot.kind == 'thread':
+            if name == 'joinable' and not a:
+                return '%s.joinable' % o
+            if name == 'join' and not a:
+                return 'wb_thread_join(&%s)' % o
         if ot.kind == 'ptr' and getattr(ot, 'smart', False):
             if name == 'get' and not a:
                 return o
@@ -1893,7 +1927,7 @@ class FunctionBody:
         if opname in ('operator->', 'operator*') and t0.kind == 'ptr':
             o = self.expr(args[0])
             return o if opname == 'operator->' else '(*%s)' % o
-        if opname == 'operator=' and t0.kind in ('vector', 'array', 'record'):
+        if opname == 'operator=' and t0.kind in ('vector', 'array', 'record', 'thread'):
             s = '%s = %s' % (self.expr(args[0]), self.expr(args[1]))
             return s if stmt else '(' + s + ')'
         if t0.kind == 'string':
@@ -1961,7 +1995,7 @@ def translate(targets, config=None):
     for t in targets:
         path = t['tu'] if os.path.isabs(t['tu']) else os.path.join(REPO, t['tu'])
         tu = get_tu(path, t.get('filter', 'WorldBuilder'))
-        f = tu.find_function(t['qual'], t.get('sig'))
+        f = tu.find_function(t['qual'], t.get('sig'), first_of_many=t.get('first_of_many', False))
         if f is None:
             raise ExtractionBreak('target %s (sig %s) not found in %s' % (t['qual'], t.get('sig'), t['tu']))
         tr.request(tu, f, t.get('cname'))
